@@ -96,14 +96,15 @@ check("C18", "exploration",
       "DESIGN.md §3 C18")
 
 
-check("C12", "exploration",
+check("C12", "fault_enumeration",
       "Project machine: three files whose named targets start present/absent/empty/missing, histories of sync --truth X "
       "through the real CLI, user edits, restarts, one I/O fault or crash at a rehearsed seam call in about half of the "
       "histories followed by seeded user recovery. After every fault-free sync: B1 files parse; B2 every target, parsed by "
       "cdd's matching parser, equals the truth's parse (names, order, types, defaults, descriptions); B3 truth unchanged; "
-      "B4 AST outside the targets unchanged; B5 an identical second sync is byte-identical; B6 (always, also under "
-      "faults) nothing but the listed files is created or written; B7 after recovery one sync re-establishes B1-B4 and "
-      "the next one B5.",
+      "B4 AST outside the targets unchanged; B5 an identical second and third sync are byte-identical; B6 (always, also "
+      "under faults) nothing but the listed files is created or written; B7 after recovery one sync re-establishes B1-B4 "
+      "and the next one B5. On flagged plans every seam call of the last sync is faulted once per kind (error, crash, torn "
+      "close), with B6 and recovery+convergence judged after each.",
       "Common representable interface domain; eight listed known findings delimit regions of B2/B5/B1 by narrow "
       "signatures (existing function/argparse targets are never rewritten; lossy argparse/function default cells; method "
       "targets emitted at top level; appended targets not in normal form / glued to a last line without newline); cdd's "
